@@ -228,7 +228,11 @@ class InterfaceLDM3:
         self.logging.debug(
             "Deleting provider data from application id %d", data_provider.application_id)
         if self.ldm_service.ldm_maintenance.data_containers.exists("dataObjectID", data_provider.data_object_id):
-            self.ldm_service.del_provider_data(data_provider.data_object_id)
+            # Remove the stored object itself (the provider registry is not touched)
+            stored = self.ldm_service.ldm_maintenance.get_provider_data(
+                data_provider.data_object_id)
+            if stored is not None:
+                self.ldm_service.ldm_maintenance.del_provider_data(stored)
             return DeleteDataProviderResp(
                 data_provider.application_id,
                 data_provider.data_object_id,
